@@ -52,6 +52,7 @@ class MembershipMonitor(Ext):
         if p.voter:
             members.add(p.key)
         self.base[p] = (members, 0)
+        p.started_with_journal = bool(p.journal.mirror) and (p.journal.last_idx() or 0) > 1
 
     def members_at(self, p, k):
         """Member set of node p at its log position k: its base configuration (constructor list, or the
@@ -60,13 +61,31 @@ class MembershipMonitor(Ext):
         before its own addition its set legitimately differs from the one an original member had there."""
         self.rebase_on_loaded_snapshot(p)
         base, upto = self.base[p]
-        changes = []
-        for e in p.journal.mirror:
-            if upto < e[1] <= k:
-                ch = parse_membership(e[0])
-                if ch is not None:
-                    changes.append(ch)
-        return fold(base, changes, p.key if p.voter else None)
+        if upto > 0 or not getattr(p, 'started_with_journal', False):
+            changes = []
+            for e in p.journal.mirror:
+                if upto < e[1] <= k:
+                    ch = parse_membership(e[0])
+                    if ch is not None:
+                        changes.append(ch)
+            return fold(base, changes, p.key if p.voter else None)
+        # A process that was started on an existing journal (and has loaded no snapshot): the list it was constructed with
+        # is not tied to a log position - it may be the founders' list or the current one, the entries of the journal are
+        # applied on top of it either way (idempotently).  Its set at position k is its current set with the entries after k
+        # taken back, last first.
+        cur = set(self.expected_members(p))
+        selfkey = p.key if p.voter else None
+        for e in reversed(p.journal.mirror):
+            if e[1] <= k:
+                break
+            ch = parse_membership(e[0])
+            if ch is None or ch[1] == selfkey:
+                continue
+            if ch[0] == 'add':
+                cur.discard(ch[1])
+            elif ch[0] == 'rem':
+                cur.add(ch[1])
+        return cur
 
     def on_load(self, p, data):
         try:
